@@ -13,6 +13,7 @@ import (
 	"encoding/json"
 	"fmt"
 	"os"
+	"runtime"
 	"testing"
 	"testing/synctest"
 	"time"
@@ -150,7 +151,26 @@ func Bound(name string, v int) {}
 func NondetMapOrder() {}
 
 // LiveThreads is the number of goroutines started by the harness and not finished.
-func LiveThreads() int { return 0 }
+// Natively: goroutines in excess of those that existed when the harness began.
+func LiveThreads() int {
+	if n := runtime.NumGoroutine() - baseGoroutines; n > 0 {
+		return n
+	}
+	return 0
+}
+
+var baseGoroutines int
+
+// Settle lets every other goroutine run until it has finished or is blocked
+// for good (the engine runs them to quiescence; natively it just waits).
+func Settle() {
+	for i := 0; i < 100; i++ {
+		if runtime.NumGoroutine() <= baseGoroutines {
+			return
+		}
+		time.Sleep(2 * time.Millisecond)
+	}
+}
 
 // Yield is an explicit scheduling point.
 func Yield() {}
@@ -251,6 +271,7 @@ func Replay(t *testing.T, harnesses map[string]func()) {
 		}
 		seq = map[string]int{}
 		failures = nil
+		baseGoroutines = runtime.NumGoroutine()
 		invalid := false
 		func() {
 			defer func() {
